@@ -51,6 +51,12 @@ pub struct Case {
     /// the case only, the oracle works on the stored values. Empty = centred data.
     #[serde(default)]
     pub offset: Vec<f64>,
+    /// memory layout of the training records handed to `fit`, see `mem::mem_name` (0 = owned, row-major)
+    #[serde(default)]
+    pub mem: u8,
+    /// memory layout of the query batch handed to `predict`
+    #[serde(default)]
+    pub qmem: u8,
 }
 
 impl Case {
@@ -112,6 +118,9 @@ pub struct Cfg {
     pub single: bool,
     /// selector of the feature offset (0..8), used with the Gaussian kernel only
     pub offset: u8,
+    /// memory layouts of training records / query batch
+    pub mem: u8,
+    pub qmem: u8,
 }
 
 /// Smallest base <x,y> + c of a polynomial kernel with a fractional degree (by construction of c).
@@ -314,6 +323,8 @@ pub fn build(cfg: Cfg, rows: &[RowIng], fresh: &[RowIng]) -> Case {
         x,
         fresh,
         offset,
+        mem: cfg.mem % crate::mem::MEMS,
+        qmem: cfg.qmem % crate::mem::MEMS,
     }
 }
 
@@ -374,11 +385,12 @@ pub fn case_strategy(fl: Flavor) -> impl Strategy<Value = Case> {
         task(fl.c_lo, fl.c_hi),
         any::<bool>(),
         0u8..8,
+        (0u8..crate::mem::MEMS, 0u8..crate::mem::MEMS),
     )
-        .prop_map(move |(rows, fresh, layout, p, kernel, task, fine, offset)| {
+        .prop_map(move |(rows, fresh, layout, p, kernel, task, fine, offset, (mem, qmem))| {
             let eps = if fl.single || !fine { 1e-3 } else { 1e-5 };
             build(
-                Cfg { layout, p, kernel, task, eps, shrinking: fl.shrinking, single: fl.single, offset },
+                Cfg { layout, p, kernel, task, eps, shrinking: fl.shrinking, single: fl.single, offset, mem, qmem },
                 &rows,
                 &fresh,
             )
@@ -388,8 +400,8 @@ pub fn case_strategy(fl: Flavor) -> impl Strategy<Value = Case> {
 /// Large stratum: the bulk data is derived from one generated seed (a case with 2000 explicit
 /// ingredient rows would make proptest's shrinking useless and slow).
 pub fn large_strategy(n_lo: usize, n_hi: usize) -> impl Strategy<Value = Case> {
-    (any::<u64>(), n_lo..=n_hi, layout(), 1usize..=3, kernel(), task(-200, 100), any::<bool>(), any::<bool>(), 0u8..8).prop_map(
-        |(seed, n, layout, p, kernel, task, fine, shrinking, offset)| {
+    (any::<u64>(), n_lo..=n_hi, layout(), 1usize..=3, kernel(), task(-200, 100), any::<bool>(), any::<bool>(), 0u8..8, (0u8..crate::mem::MEMS, 0u8..crate::mem::MEMS)).prop_map(
+        |(seed, n, layout, p, kernel, task, fine, shrinking, offset, (mem, qmem))| {
             let mut rng = SplitMix(seed);
             let mut mk = |k: usize| -> Vec<RowIng> {
                 (0..k)
@@ -408,7 +420,7 @@ pub fn large_strategy(n_lo: usize, n_hi: usize) -> impl Strategy<Value = Case> {
             let rows = mk(n);
             let fresh = mk(4);
             let eps = if fine { 1e-5 } else { 1e-3 };
-            build(Cfg { layout, p, kernel, task, eps, shrinking, single: false, offset }, &rows, &fresh)
+            build(Cfg { layout, p, kernel, task, eps, shrinking, single: false, offset, mem, qmem }, &rows, &fresh)
         },
     )
 }
